@@ -145,9 +145,13 @@ func (e *c30Env) bad(key, what string, extra map[string]any) {
 var c30Base = time.Date(2030, 1, 1, 0, 0, 0, 0, time.UTC)
 
 func (e *c30Env) sign(name string, networks []netip.Prefix, notBefore, notAfter time.Time) cert.Certificate {
+	return e.signV(cert.Version1, name, networks, notBefore, notAfter)
+}
+
+func (e *c30Env) signV(v cert.Version, name string, networks []netip.Prefix, notBefore, notAfter time.Time) cert.Certificate {
 	pub := make([]byte, 32)
 	e.keyRd.Read(pub)
-	tbs := &cert.TBSCertificate{Version: cert.Version1, Name: name, Networks: networks, NotBefore: notBefore, NotAfter: notAfter, PublicKey: pub}
+	tbs := &cert.TBSCertificate{Version: v, Name: name, Networks: networks, NotBefore: notBefore, NotAfter: notAfter, PublicKey: pub}
 	c, err := tbs.Sign(e.caCert, cert.Curve_CURVE25519, e.caKey)
 	if err != nil {
 		panic(err)
@@ -273,7 +277,14 @@ func (e *c30Env) addTunnel(peer int) *c30Tunnel {
 	if !na.After(e.now) {
 		return nil // the CA has run out: no new handshake could complete any more
 	}
-	crt := e.sign(fmt.Sprintf("peer%d", peer), []netip.Prefix{netip.PrefixFrom(e.peers[peer], 24)}, nb, na)
+	// a third of the peers present a v2 certificate to this v1-only node (a network in the middle of a migration): the
+	// policy is the same, there is no matching local certificate version to "correct" the tunnel to
+	pv := cert.Version1
+	if e.rng.IntN(3) == 0 {
+		pv = cert.Version2
+		e.r.Count("tunnels_with_v2_peer_certificate", 1)
+	}
+	crt := e.signV(pv, fmt.Sprintf("peer%d", peer), []netip.Prefix{netip.PrefixFrom(e.peers[peer], 24)}, nb, na)
 	fp, _ := crt.Fingerprint()
 	// a CachedCertificate the way a completed handshake leaves it (verified against a pool that has the CA)
 	vp := cert.NewCAPool()
